@@ -63,10 +63,12 @@ class FnSpec:
 # method / function names whose calls are total and without effect: a log message made only of these is dropped whole
 PURE_LOG = {"as_raw", "display", "to_string", "to_str", "unwrap_or_default", "len", "as_str", "Some", "code", "as_secs", "identifier_list", "get_id",
             "get_one", "map", "unwrap_or", "is_some", "is_none", "clone", "to_owned", "as_ref", "is_empty", "as_u16", "as_millis"}
-def fmt_to_cat(lit, cat="crate::vb64::cat2"):
-    """T-FMT (exact form): a format string whose placeholders are all `{ident}` naming String/&str variables is a
-    concatenation; returns the nested crate::vb64::cat2 expression, or None when the string has any other shape."""
+def fmt_to_cat(lit, cat="crate::vb64::cat2", args=None):
+    """T-FMT (exact form): a format string whose placeholders are all `{ident}` naming String/&str variables - or `{}` taking
+    the next of the given argument expressions (String/&str values) - is a concatenation; returns the nested
+    crate::vb64::cat2 expression, or None when the string has any other shape."""
     body = lit[1:-1]
+    args = list(args or [])
     parts, i, cur = [], 0, ""
     while i < len(body):
         ch = body[i]
@@ -75,7 +77,9 @@ def fmt_to_cat(lit, cat="crate::vb64::cat2"):
                 cur += "{"; i += 2; continue
             j = body.find("}", i)
             name = body[i + 1:j]
-            if not re.fullmatch(r"[A-Za-z_][A-Za-z0-9_]*", name):
+            if name == "" and args:
+                name = "(" + args.pop(0).strip() + ")"
+            elif not re.fullmatch(r"[A-Za-z_][A-Za-z0-9_]*", name):
                 return None
             if cur:
                 parts.append('"' + cur + '"'); cur = ""
@@ -92,6 +96,8 @@ def fmt_to_cat(lit, cat="crate::vb64::cat2"):
         i += 1
     if cur:
         parts.append('"' + cur + '"')
+    if args:
+        return None
     if not parts:
         return 'String::new()'
     expr = None
